@@ -179,7 +179,9 @@ def rule_r3(chk: Check) -> None:
     sr = ci.methods.get("_send_response")
     if sr is None:
         chk.floor("R3", "_send_response", 0, 1)
-    g = build_cfg(chk.proj, sr)
+    from ..cfg import inline_local
+
+    g = Builder(chk.proj, inline_local, 3).build(sr)
     defs = Defs(g)
     ws = nodes_calling(g, lambda c: method_call(c) is not None and dotted(method_call(c)[0]) == "self.transport" and method_call(c)[1] == "write")
     body_leaves = []
@@ -210,6 +212,18 @@ def rule_r3(chk: Check) -> None:
             continue  # header
         if "body" in txt:
             n_body += 1
+            if isinstance(core, ast.Subscript) and isinstance(core.slice, ast.Slice) and isinstance(core.value, ast.Name):
+                # chunked write `for i in range(0, len(X), N): write(X[i:i+N])`: complete iff the
+                # loop bound is the length of the very bytes that are sliced
+                why = _chunk_loop_ok(sr, w, core)
+                if why is None:
+                    inner = origins(defs, w, core.value)
+                    if all(not isinstance(l2, _Sel) and (dotted(_strip_enc(l2)) == "response.body" or (isinstance(l2, ast.Constant) and l2.value in (b"", ""))) for _, l2 in inner):
+                        continue
+                    why = f"the sliced value `{norm(core.value)}` is not the handler's body"
+                ok = False
+                chk.finding("R3", sr.key, f"body-altered:{txt[:50]}", f"the body is written in slices `{txt}` that do not provably cover it: {why}", w.where())
+                continue
             if dotted(core) != "response.body":
                 ok = False
                 chk.finding("R3", sr.key, f"body-altered:{txt[:50]}", f"the body written is `{txt}`, not the handler's body unchanged", w.where())
@@ -237,6 +251,34 @@ def rule_r3(chk: Check) -> None:
                     chk.finding("R3", fi.key, f"rewrap-alters:{norm(c)[:50]}", "re-wrapping the handler's response (to attach the URL) does not pass status, meta and body through unchanged", fi.loc(c))
                 chk.ob("R3", f"{fi.key}: rewrap passes status/meta/body through", good)
     chk.floor("R3", "response re-wrapping sites", n, 2)
+
+
+def _strip_enc(e: ast.AST) -> ast.AST:
+    while isinstance(e, ast.Call) and method_call(e) and method_call(e)[1] == "encode":
+        e = method_call(e)[0]
+    return e
+
+
+def _chunk_loop_ok(fi, wnode, sub: ast.Subscript) -> str | None:
+    """None if `sub` (= X[i:i+N]) is written inside `for i in range(0, len(X), N)`;
+    otherwise the reason."""
+    x = sub.value.id
+    loop = next((l for l in walk(fi.node) if isinstance(l, ast.For) and any(s2 is sub for s2 in ast.walk(l))), None)
+    if loop is None:
+        return "the slice is not written in a loop over the whole value"
+    it = loop.iter
+    if not (isinstance(it, ast.Call) and dotted(it.func) == "range" and len(it.args) == 3):
+        return f"the loop `{norm(it)}` is not range(0, len({x}), step)"
+    start, stop, step = it.args
+    if not (isinstance(start, ast.Constant) and start.value == 0):
+        return "the loop does not start at offset 0"
+    if not (isinstance(stop, ast.Call) and dotted(stop.func) == "len" and len(stop.args) == 1 and dotted(stop.args[0]) == x):
+        return f"the loop bound `{norm(stop)}` is not len({x}) - e.g. a length counted in characters before encoding drops the tail of a non-ASCII body"
+    i = dotted(loop.target)
+    lo, hi = sub.slice.lower, sub.slice.upper
+    if not (dotted(lo) == i and isinstance(hi, ast.BinOp) and isinstance(hi.op, ast.Add) and dotted(hi.left) == i and norm(hi.right) == norm(step)):
+        return "the slice bounds do not match the loop step"
+    return None
 
 
 def rule_r4_r5(chk: Check) -> None:
